@@ -106,7 +106,9 @@ def narrow_set(rng, style=None):
         trajs = [runs_traj(rng, labs, rng.randint(3, 9)) for _ in range(rng.choice([1, 1, 2]))]
         trajs[0] = trajs[0] + labs
         return trajs, [rng.choice(['int8', 'uint8', 'int16'])] * len(trajs), style
-    k = rng.randint(129, 180)
+    k = rng.choice([129, 129, 130, 131, rng.randint(129, 180), 255, 256, 257, 258])     # just past the int8 / uint8 boundaries
+    if style == 'many-unsigned':
+        k = min(k, 256 - base)          # the wide trajectory is a uint8 array
     labs = list(range(base, base + k))
     low = labs[:100]
     t1 = traj(rng, low, rng.randint(50, 150), sticky=0.3)
@@ -203,7 +205,7 @@ def size_classes(rng, labs=None, lag=2, sticky=0.85):
     if kind == 'long':
         return [traj(rng, labs, rng.randint(66000, 69000), sticky=sticky), traj(rng, labs, 7, sticky=sticky)], kind
     if kind == 'many-states':
-        k = rng.choice([66, 70, 131, 260])
+        k = rng.choice([65, 66, 70, 128, 129, 131, 257, 260])
         base = rng.choice([0, 1, -30])
         wide = [base + 3 * i for i in range(k)] if rng.random() < 0.4 else list(range(base, base + k))
         t, cur = [], 0
@@ -214,3 +216,21 @@ def size_classes(rng, labs=None, lag=2, sticky=0.85):
         return [t + wide, wide[::-1] + traj(rng, wide[:5], 30, sticky=sticky)], kind
     trajs = trajset(rng, labs, ntraj=rng.choice([2, 3, 4]))
     return insert_empties(trajs, empty_positions(rng, len(trajs))), kind
+
+
+def with_decoys(rng, cases, p=0.1):
+    """container reuse: the list / array passed to the library held other trajectories in an earlier call"""
+    for case in cases:
+        if isinstance(case, dict) and case.get('alpha') != 'enum' and not case.get('layout') and not case.get('dtypes') \
+                and case.get('form') in ('lol', 'loa', 'list', 'arr1', 'arr2') and rng.random() < p \
+                and sum(len(t) for t in case.get('trajs', [])) < 3000:
+            trajs = case['trajs']
+            pool = sorted({v for t in trajs for v in t}) or [0]
+            if case['form'] in ('arr1', 'arr2'):
+                decoy = [[rng.choice(pool) for _ in t] for t in trajs]
+            else:
+                decoy = [[rng.choice(pool) for _ in range(rng.randint(1, 12))] for _ in range(rng.randint(1, 4))]
+                if case['form'] == 'list':
+                    decoy = decoy[:1]
+            case['decoy'] = decoy
+        yield case
